@@ -1,6 +1,7 @@
 package main
 
 import (
+	"sort"
 	"go/ast"
 	"go/parser"
 	"fmt"
@@ -472,6 +473,9 @@ func (fc *FnCtx) applyContract(c *Contract, cname string, names []string, typs [
 		}
 	}
 	for _, en := range c.Ensures {
+		if en.GoalOnly {
+			continue // proved at the callee's returns where possible, never assumed here
+		}
 		t, err := fc.specBool(post, en.Text)
 		if err != nil {
 			fc.unbound = append(fc.unbound, fmt.Sprintf("call %s ensures %q: %v", cname, en.Text, err))
@@ -870,6 +874,37 @@ func (fc *FnCtx) havocFresh(st, pre *State) {
 	}
 	one(st.mdom, pre.mdom)
 	one(st.mlen, pre.mlen)
+	fc.groundKeep(pre, st, nil)
+}
+
+// groundKeep states the "objects that existed before keep their contents" fact explicitly for
+// the objects the function's pointer and slice parameters refer to (they exist since entry),
+// for the heap sorts not listed in except. The quantified fact already implies these; stated
+// as ground equalities they need no quantifier instantiation.
+func (fc *FnCtx) groundKeep(pre, post *State, except map[Sort]bool) {
+	names := make([]string, 0, len(fc.params))
+	for n := range fc.params {
+		names = append(names, n)
+	}
+	sort.Strings(names)
+	seen := map[string]bool{}
+	for _, n := range names {
+		v := fc.params[n]
+		if v.K != KPtr && v.K != KSlice {
+			continue
+		}
+		obj := v.Obj()
+		if seen[obj.S] {
+			continue
+		}
+		seen[obj.S] = true
+		for _, hs := range heapSorts {
+			if except[hs] || pre.heap[hs].S == post.heap[hs].S {
+				continue
+			}
+			fc.assume(Implies(Lt(obj, pre.next), Eq(Select(post.heap[hs], obj), Select(pre.heap[hs], obj))))
+		}
+	}
 }
 
 // funcFrame is the frame obligation of the function under verification at a return.
@@ -892,11 +927,12 @@ func (fc *FnCtx) funcFrame(cur *State) (Term, bool) {
 
 // loopFrame: the same frame, relative to function entry, as a loop invariant.
 func (fc *FnCtx) loopFrame(li *LoopInfo, st *State) (Term, bool) {
-	if fc.c == nil || !fc.c.HasMod {
+	loopHas := li.lc != nil && li.lc.HasMod
+	if fc.c == nil || (!fc.c.HasMod && !loopHas) {
 		return Term{}, false
 	}
 	items := fc.c.Modifies
-	if li.lc != nil && li.lc.HasMod {
+	if loopHas {
 		items = li.lc.Modifies
 	}
 	env := fc.entryEnv()
@@ -935,7 +971,7 @@ func (fc *FnCtx) builtin(b *ssa.Builtin, cc *ssa.CallCommon, args []Value, pos t
 			}
 		case *types.Map:
 			if a.K == KLeaf {
-				t = Select(st.mlen, a.T)
+				t = Ite(Eq(a.T, IntLit(0)), IntLit(0), Select(st.mlen, a.T)) // len(nil map) == 0
 			}
 		case *types.Array:
 			t = IntLit(u.Len())
